@@ -40,6 +40,7 @@ type corsCase struct {
 		Wild   []corsOrigin `json:"wild"`
 		Fn     bool         `json:"fn"`
 		All    bool         `json:"all"`
+		Blank  bool         `json:"blank"`
 		Cred   bool         `json:"cred"`
 		Pna    bool         `json:"pna"`
 		MaxAge int          `json:"maxAge"`
@@ -79,7 +80,7 @@ func TestC19(t *testing.T) {
 		panicV string
 	}
 	cache := map[string]*built{}
-	var n, nAllowed, nPreflight, nPanicCfg int
+	var n, nAllowed, nPreflight, nPanicCfg, nBlankRefused int
 	readCases(t, "VERIF_CASES", func(line []byte) {
 		var cs corsCase
 		if err := json.Unmarshal(line, &cs); err != nil {
@@ -101,6 +102,9 @@ func TestC19(t *testing.T) {
 					AllowMethods: []string{"GET", "POST", "DELETE"}}
 				if cs.Cfg.All {
 					cfg.AllowOrigins = []string{"*"}
+				}
+				if cs.Cfg.Blank {
+					cfg.AllowOrigins = []string{" ", ""}
 				}
 				for _, e := range cs.Cfg.Exact {
 					cfg.AllowOrigins = append(cfg.AllowOrigins, e.String())
@@ -133,6 +137,10 @@ func TestC19(t *testing.T) {
 				o.violation(map[string]any{"check": "invalid-config-accepted", "prop": "C19", "cfg": cs.Cfg})
 			}
 			return
+		}
+		if b.panicV != "" && cs.Cfg.Blank {
+			nBlankRefused++
+			return // a list that names nothing may be refused by the constructor
 		}
 		if b.panicV != "" {
 			o.violation(map[string]any{"check": "valid-config-rejected", "prop": "C19", "cfg": cs.Cfg, "panic": b.panicV})
@@ -223,7 +231,7 @@ func TestC19(t *testing.T) {
 			o.sample(map[string]any{"cfg": cs.Cfg, "req": cs.Req, "origin_sent": sent, "answer": cs.Ans})
 		}
 	})
-	o.summary(map[string]any{"cases": n, "origin_allowed": nAllowed, "preflights": nPreflight, "invalid_configs": nPanicCfg, "violations": o.nV})
+	o.summary(map[string]any{"cases": n, "origin_allowed": nAllowed, "preflights": nPreflight, "invalid_configs": nPanicCfg, "blank_origin_lists_refused_by_the_constructor": nBlankRefused, "violations": o.nV})
 }
 
 func peekAll(rc *fasthttp.RequestCtx, key string) []string {
